@@ -228,6 +228,10 @@ def explore(ctx, n, n_asan, p_degenerate=0.6, tag="m", with_model=True, p_coarse
               "max_steps": 40 if option != "gillespie" else 12, "space_kind": ["grid", "graph"][(i // 12) % 2],
               # every fifth job: 1-2 species with more directed reactions than 6 * n_species (sizes in n_reactions vs n_species vs slots)
               "many_reactions": (i % 5 == 4)}
+        if i % 6 == 1:
+            kw["chem_file"] = True            # chemostat map loaded from a text file with the values over several lines
+        if i % 6 == 3:
+            kw["refuse_space"] = True         # a refused `system.space = …` (undefined environment), caught, then the system is used
         if i % 24 in (2, 13):
             # on_interval with t / sampling_interval beyond 2^31 (a few steps of 1 s, interval around 1 ns); always in the sanitizer subset
             kw.update(huge_ratio=True, policy="on_interval")
@@ -256,6 +260,8 @@ def explore(ctx, n, n_asan, p_degenerate=0.6, tag="m", with_model=True, p_coarse
         for key in ("option", "policy", "style", "space", "mode"):
             ctx.count("%s_%s" % (key, info[key]))
         ctx.count("coarse" if info.get("coarse") else "fine")
+        for op in info.get("system_ops", []):
+            ctx.count("system_op_" + op)
         if info.get("huge_ratio"):
             ctx.count("interval_ratio_beyond_2^31_%s_%s" % (info["option"], info["space"]))
         if info.get("many_reactions"):
@@ -273,7 +279,7 @@ def explore(ctx, n, n_asan, p_degenerate=0.6, tag="m", with_model=True, p_coarse
             ctx.count("runs_" + kind)
             if r["status"] != "ok":
                 for x in r["results"]:
-                    for key, what, impl, exp in lc.init_failures(x):
+                    for key, what, impl, exp in lc.init_failures(x) + lc.edit_failures(x):
                         ctx.violation(key, "%s build: %s" % (kind, what), dict(case, build=kind), impl=impl, expected=exp)
                 at = r["at"] if r["at"] is not None else len(r["results"])
                 call = job["calls"][at]["call"] if at < len(job["calls"]) else "end-of-job"
@@ -289,7 +295,7 @@ def explore(ctx, n, n_asan, p_degenerate=0.6, tag="m", with_model=True, p_coarse
                     ctx.violation("raised", "a lifecycle call raised on a valid script: %s" % raised[0]["raised"], dict(case, build=kind))
                 continue
             for x in r["results"]:
-                for key, what, impl, exp in lc.init_failures(x):
+                for key, what, impl, exp in lc.init_failures(x) + lc.edit_failures(x):
                     ctx.violation(key, "%s build: %s" % (kind, what), dict(case, build=kind), impl=impl, expected=exp)
             outs = [x["ret"]["hash"] for c, x in zip(job["calls"], r["results"]) if c["call"] == "get_output"]
             hashes[kind] = outs
@@ -330,7 +336,7 @@ def replay(ctx, rec):
     if r["status"] != "ok":
         detail["class"] = classify(r.get("stderr", ""), r["status"])
         return False, detail
-    inits = [f for x in r["results"] for f in lc.init_failures(x)]
+    inits = [f for x in r["results"] for f in lc.init_failures(x) + lc.edit_failures(x)]
     if inits:
         detail["marshalling"] = [{"key": f[0], "what": f[1]} for f in inits[:3]]
         return False, detail
